@@ -9,10 +9,10 @@ META = dict(
     property="C39",
     level="exploration",
     technique="breadth-first exploration with state hashing over two real Telnet objects joined by FIFO queues (every state is reached by re-executing its action path from the initial state), complete for a bounded number of requests; Hypothesis for longer runs, 3 options and mixed accept/refuse policies",
-    level_text="Quick: every reachable state for 2 options and up to 4 requests (all-accepting policies) and up to 6 (4) requests for two (one more) refusing-policy configurations, all delivery interleavings included. Thorough: the same for up to 6 requests (the scope named in the property) and 3 options with up to 4 requests. Beyond that, random histories of up to 24 requests over 3 options with random policies and random drain order. The oracle is checked at every step and at every moment with no message in flight.",
-    level_note="State hash = per option (state, negotiating, onResult set) of both perspectives on both sides + both queues + requests used + messages sent + unfired Deferreds; two paths with equal hash are assumed to have equal futures (true if Telnet keeps no other negotiation state). A policy is one accept-set per side used for enableLocal and enableRemote; a side only issues requests about options it accepts (the statement's precondition). Results of Deferreds are additionally compared with the option state at the moment of firing, as documented in ITelnetTransport.",
+    level_text="Quick: every reachable state for 2 options and up to 4 requests (all-accepting policies) and up to 6 (4) requests for two (one more) refusing-policy configurations, all delivery interleavings included. Thorough: the same for up to 6 requests (the scope named in the property) and 3 options with up to 4 requests. Requests may carry a follow-up request that the application issues re-entrantly from inside the result callback (complete for 1 option and up to 4 (thorough 6) requests, sampled beyond). Every explored state is additionally ended by a connection loss on both sides, after which every request Deferred must have fired exactly once. Beyond that, random histories of up to 60 actions over 3 options with random policies, follow-ups nested two deep, random drain order or a connection loss on either or both sides. The oracle is checked at every step and at every moment with no message in flight.",
+    level_note="State hash = per option (state, negotiating, onResult set) of both perspectives on both sides + both queues + requests used + messages sent + unfired Deferreds; two paths with equal hash are assumed to have equal futures (true if Telnet keeps no other negotiation state). A policy is one accept-set per side used for enableLocal and enableRemote; a side only issues requests about options it accepts (the statement's precondition). Follow-up requests are not issued once the connection is lost. Connection loss is read as inside 'every request Deferred fires exactly once' (Telnet.connectionLost exists for exactly that); agreement of the sides is not checked after a loss. Results of Deferreds are additionally compared with the option state at the moment of firing, as documented in ITelnetTransport.",
     design_ref="§5 C39",
-    rule="case = (number of options, accept-set per side, action list of requests [side, will/wont/do/dont, option] and deliveries [direction], drain order). non-trivial = some request was accepted for sending while at least one negotiation message was in flight; distinct by the whole action list and policy.",
+    rule="case = (number of options, accept-set per side, action list of requests [side, will/wont/do/dont, option, optional follow-up issued from the result callback] and deliveries [direction], drain order or connection loss). non-trivial = some request was accepted for sending while at least one negotiation message was in flight; distinct by the whole action list and policy.",
 )
 
 VERBS = ("will", "wont", "do", "dont")
@@ -60,7 +60,9 @@ def _endpoint_class():
         def disableRemote(self, option):
             pass
     from twisted.conch import telnet
+    from twisted.internet.error import ConnectionDone
     _TELNET.append(telnet)
+    _TELNET.append(ConnectionDone)
     _CLS.append(Endpoint)
     return Endpoint
 
@@ -84,6 +86,10 @@ class World:
         self.problems = []      # (signature, detail) noticed inside Deferred callbacks
         self.crossing = False
         self.nreq = 0
+        self.lost = False       # connectionLost delivered: follow-up requests are no longer issued
+        self.counting = True
+        self.counts = []        # class labels noticed inside callbacks (flushed by execute)
+        self.policy = case["policy"]
 
     # -- inspection ---------------------------------------------------------
     def persp(self, side, opt):
@@ -97,7 +103,8 @@ class World:
         return tuple(self.persp(side, o) for o in self.opts)
 
     def unfired(self):
-        return sum(1 for r in self.reqs if r[3] == 0)
+        # pending requests with the follow-up they carry (hidden state that shapes the future)
+        return tuple(sorted((r[0], r[1], r[2], repr(r[5])) for r in self.reqs if r[3] == 0))
 
     def key(self):
         return (self.snap(0), self.snap(1), tuple(self.queues[0].q), tuple(self.queues[1].q),
@@ -107,10 +114,12 @@ class World:
         return not self.queues[0].q and not self.queues[1].q
 
     # -- actions ------------------------------------------------------------
-    def request(self, side, verb, opt):
+    def request(self, side, verb, opt, then=None, reentrant=False):
+        """Issue one request; `then` = [verb, option index(, then)] is a request the
+        application issues from inside this request's result callback."""
         telnet = _TELNET[0]
         e = self.ends[side]
-        rec = [side, verb, opt, 0, None]
+        rec = [side, verb, opt, 0, None, then]
         self.reqs.append(rec)
         self.nreq += 1
         inflight = bool(self.queues[0].q or self.queues[1].q)
@@ -139,11 +148,36 @@ class World:
                 if verb in ("wont", "dont") or state != "no":
                     world.problems.append(("deferred-result-contradicts-state",
                                            f"{verb}({opt!r}) on side {side} refused, option state {state!r}"))
+            elif world.lost and f.check(_TELNET[1]):
+                pass
             elif not f.check(telnet.AlreadyNegotiating, telnet.AlreadyEnabled, telnet.AlreadyDisabled):
                 world.problems.append(("deferred-odd-failure", f"{verb} failed with {f.type.__name__}: {f.value}"))
             return None
 
+        def follow(_):
+            # the application reacts to the result by issuing its next request
+            if world.lost or then is None:
+                return
+            v2, oi2 = then[0], then[1]
+            t2 = then[2] if len(then) > 2 else None
+            if oi2 >= world.nopts or oi2 not in world.policy[side]:
+                return
+            try:
+                r2 = world.request(side, v2, world.opts[oi2], t2, reentrant=True)
+            except Exception as ex:   # reported as a violation by _step_checks, not swallowed
+                import traceback
+                world.problems.append((f"exc-in-reentrant-request:{type(ex).__name__}",
+                                       f"{v2} issued from the result callback of {verb}: "
+                                       + "".join(traceback.format_exception(ex))[-1500:]))
+                return
+            if world.counting:
+                world.counts.append("reentrant request (from a result callback): "
+                                    + (r2[4] if r2[4] not in (None, "ok") else "sent"))
+                if r2[4] is None and r2[2] == opt:
+                    world.counts.append("reentrant request about the same option, sent")
+
         d.addCallbacks(ok, err)
+        d.addBoth(follow)
         if self.sent > before and inflight:
             self.crossing = True
         return rec
@@ -162,6 +196,23 @@ class World:
             label = f"handler {CMD[msg[1]].lower()}_{st_}_{'true' if neg else 'false'}"
         self.ends[peer].dataReceived(msg)
         return label
+
+
+def lose_connection(ctx, case, w, sides):
+    """Terminal event: the connection is lost on the given sides while whatever is
+    pending is pending.  Every request of those sides must then have fired once."""
+    from twisted.python.failure import Failure
+    w.lost = True
+    pending = sum(1 for r in w.reqs if r[3] == 0 and r[0] in sides)
+    for side in sides:
+        w.ends[side].connectionLost(Failure(_TELNET[1]()))
+    if w.problems:
+        _fail(ctx, case, w, w.problems[0][0], w.problems[0][1])
+    for r in w.reqs:
+        if r[0] in sides and r[3] != 1:
+            _fail(ctx, case, w, f"deferred-never-fired-after-connection-lost-{r[1]}",
+                  f"connection lost on side {r[0]} but the Deferred of {r[1]}({r[2]!r}) fired {r[3]} times")
+    return pending
 
 
 def _fail(ctx, case, w, sig, detail):
@@ -199,15 +250,19 @@ def execute(ctx, case):
     last = len(acts) - 1
     for i, act in enumerate(acts):
         counting = (not bfs) or i == last
+        w.counting = counting
         if act[0] == "r":
-            _, side, verb, oi = act
+            side, verb, oi = act[1], act[2], act[3]
+            then = act[4] if len(act) > 4 else None
             if oi >= w.nopts or oi not in case["policy"][side]:
                 if counting:
                     ctx.count("skipped: request outside the requester's own policy")
                 continue
-            rec = w.request(side, verb, w.opts[oi])
+            rec = w.request(side, verb, w.opts[oi], then)
             if counting:
                 ctx.count("request: " + (rec[4] if rec[4] not in (None, "ok") else "sent"))
+                if then is not None:
+                    ctx.count("request carrying a follow-up request")
         else:
             label = w.deliver(act[1], counting)
             if counting and label:
@@ -216,12 +271,19 @@ def execute(ctx, case):
             # bfs mode: the prefix is a deterministic re-execution of a path whose every
             # step was checked when it was the last one
             _step_checks(ctx, case, w)
+            for label in w.counts:
+                ctx.count(label)
+        del w.counts[:]
+    w.counting = True
     return w
 
 
 def run_case(ctx, case):
     w = execute(ctx, case)
     drain = case.get("drain")
+    lose = case.get("lose")
+    if lose is not None:
+        drain = None
     if drain is not None:
         n = 0
         while not w.quiescent():
@@ -235,26 +297,43 @@ def run_case(ctx, case):
             if n > 4 * w.nreq + 8:
                 _fail(ctx, case, w, "message-loop", f"still not quiescent after {n} deliveries for {w.nreq} requests")
             _step_checks(ctx, case, w)
+            for label in w.counts:
+                ctx.count(label)
+            del w.counts[:]
         _step_checks(ctx, case, w)
         for r in w.reqs:
             ctx.count("deferred result: " + str(r[4]))
     if w.crossing:
-        ctx.nontrivial("%s|%s|%s|%s" % (case["nopts"], case["policy"], drain, ",".join(
+        ctx.nontrivial("%s|%s|%s|%s|%s" % (case["nopts"], case["policy"], drain, case.get("lose"), ",".join(
             "".join(map(str, a)) for a in case["actions"])))
         ctx.count("nontrivial (request sent while a message was in flight)")
         if len(ctx.samples) < 5 and len(case["actions"]) % 7 == 3:
             ctx.sample(case)
     _LAST["key"] = w.key()
     _LAST["q"] = (bool(w.queues[0].q), bool(w.queues[1].q), w.nreq)
+    # terminal fault: in bfs mode every explored state is also ended by a connection loss
+    if case.get("mode") == "bfs":
+        lose = "both"
+    if lose is not None:
+        sides = (0, 1) if lose == "both" else (int(lose),)
+        npend = lose_connection(ctx, case, w, sides)
+        if npend:
+            ctx.count("connection lost with requests pending")
+            kinds = sorted({r[1] for r in w.reqs if r[0] in sides and r[4] == "ConnectionDone"})
+            for k in kinds:
+                ctx.count(f"connection lost with a {k}() pending")
 
 
 # --------------------------------------------------------------------------
 # complete exploration of a bounded scope
 
-def bfs_cases(ctx, nopts, policy, maxreq, stats):
+def bfs_cases(ctx, nopts, policy, maxreq, stats, reentrant=False):
     """Generator of cases for enumerate_run; reads the state reached by the case it
     just yielded from _LAST (written by run_case)."""
     reqs = [["r", s, v, o] for s in (0, 1) for v in VERBS for o in range(nopts) if o in policy[s]]
+    if reentrant:
+        # every request also in the variants "and from its result callback issue <request>"
+        reqs = reqs + [r + [[v2, o2]] for r in reqs for v2 in VERBS for o2 in range(nopts) if o2 in policy[r[1]]]
     base = dict(nopts=nopts, policy=policy, mode="bfs")
     seen = set()
     _LAST.pop("key", None)
@@ -293,25 +372,31 @@ def bfs_cases(ctx, nopts, policy, maxreq, stats):
 
 
 ALL2 = [[0, 1], [0, 1]]
-SCOPES_QUICK = [(2, ALL2, 4), (2, [[0, 1], []], 6), (2, [[0], [1]], 6), (2, [[0, 1], [0]], 4)]
-SCOPES_THOROUGH = [(2, ALL2, 6), (2, [[0, 1], []], 6), (2, [[0], [1]], 6), (2, [[0, 1], [0]], 5),
-                   (3, [[0, 1, 2], [0, 1, 2]], 4)]
+# (options, policy, max requests, re-entrant follow-ups in the alphabet)
+SCOPES_QUICK = [(2, ALL2, 4, False), (2, [[0, 1], []], 6, False), (2, [[0], [1]], 6, False),
+                (2, [[0, 1], [0]], 4, False), (1, [[0], [0]], 4, True), (1, [[0], []], 4, True)]
+SCOPES_THOROUGH = [(2, ALL2, 6, False), (2, [[0, 1], []], 6, False), (2, [[0], [1]], 6, False),
+                   (2, [[0, 1], [0]], 5, False), (3, [[0, 1, 2], [0, 1, 2]], 4, False),
+                   (1, [[0], [0]], 6, True), (1, [[0], []], 6, True), (2, ALL2, 3, True)]
 
 
 def _scope(ctx, scope):
-    nopts, policy, maxreq = scope
+    nopts, policy, maxreq, reentrant = scope
     stats = {"transitions": 0, "states": 0}
-    ok = enumerate_run(ctx, bfs_cases(ctx, nopts, policy, maxreq, stats), run_case)
+    ok = enumerate_run(ctx, bfs_cases(ctx, nopts, policy, maxreq, stats, reentrant), run_case)
     _LAST.pop("key", None)
     ctx.count("bfs transitions", stats["transitions"])
     ctx.count("bfs distinct states", stats["states"])
-    ctx.extra[f"scope_{nopts}opts_{maxreq}req_policy_{policy}"] = (
+    ctx.extra[f"scope_{nopts}opts_{maxreq}req_policy_{policy}" + ("_reentrant" if reentrant else "")] = (
         f"complete: {stats['states']} states, {stats['transitions']} transitions, depth {stats.get('depth')}"
         if ok and not ctx.has_violation() else "stopped at a violation")
 
 
+_THEN1 = st.tuples(st.sampled_from(VERBS), st.integers(0, 2)).map(list)
+_THEN = st.one_of(_THEN1, st.tuples(st.sampled_from(VERBS), st.integers(0, 2), _THEN1).map(list))
 _ACT = st.one_of(
     st.tuples(st.just("r"), st.integers(0, 1), st.sampled_from(VERBS), st.integers(0, 2)).map(list),
+    st.tuples(st.just("r"), st.integers(0, 1), st.sampled_from(VERBS), st.integers(0, 2), _THEN).map(list),
     st.tuples(st.just("d"), st.integers(0, 1)).map(list),
     st.tuples(st.just("d"), st.integers(0, 1)).map(list))
 _POL = st.lists(st.integers(0, 2), unique=True, max_size=3).map(sorted)
@@ -319,7 +404,8 @@ _CASES = st.fixed_dictionaries(dict(
     nopts=st.integers(1, 3),
     policy=st.one_of(st.just([[0, 1, 2], [0, 1, 2]]), st.tuples(_POL, _POL).map(list)),
     actions=st.lists(_ACT, max_size=60),
-    drain=st.lists(st.integers(0, 1), max_size=6)))
+    drain=st.lists(st.integers(0, 1), max_size=6),
+    lose=st.sampled_from([None, None, None, "both", 0, 1])))
 
 
 def _hyp_shard(sub, i):
